@@ -104,23 +104,37 @@ Definition forced_dtype (f : Z) : option sdtype :=
 (* ---- datasets ------------------------------------------------------------- *)
 Definition sds := (sdtype * list fval)%type.                 (* 1-d dataset *)
 (* dtype of an n-d dataset or of an array given to the writer: float64 (stores
-   what it is given), float32 (exact for the values |v| <= 2^24 the check uses)
-   or an integer type; [sc] is the unit of the row entries (8 for features
+   what it is given), float32 (rounds to 24 significant bits) or an integer
+   type; [sc] is the unit of the row entries (8 for features
    whose values are multiples of 1/8, 1 for integer data) *)
 Inductive ndt := NDRaw | NDF32 (sc : Z) | NDInt (bytes lo hi sc : Z).
 Definition ndt_size (t : ndt) : Z :=
   match t with NDRaw => 8 | NDF32 _ => 4 | NDInt b _ _ _ => b end.
 (* HDF5's conversion on assignment (integers: truncation, saturation) *)
+(* float32 keeps 24 significant bits (round to nearest, ties to even); the
+   entries are integers in units of 1/sc with sc a power of two, so the
+   rounding of the entry is the rounding of the value (normal range) *)
+Definition round_f32 (v : Z) : Z :=
+  let a := Z.abs v in
+  if a <? 2 ^ 24 then v
+  else
+    let e := Z.log2 a - 23 in
+    let q := a / 2 ^ e in
+    let r := a mod 2 ^ e in
+    let half := 2 ^ (e - 1) in
+    let q' := if r <? half then q else if half <? r then q + 1
+              else if Z.even q then q else q + 1 in
+    Z.sgn v * (q' * 2 ^ e).
 Definition cast_nd (t : ndt) (v : Z) : Z :=
   match t with
   | NDInt _ lo hi sc => sc * clampZ lo hi (Z.quot v sc)
-  | _ => v
+  | NDF32 _ => round_f32 v
+  | NDRaw => v
   end.
 Definition fits_nd (t : ndt) (v : Z) : bool :=
   match t with
   | NDRaw => true
-  | NDF32 sc => Z.abs v <=? sc * 2 ^ 24
-  | NDInt _ _ _ _ => cast_nd t v =? v
+  | _ => cast_nd t v =? v
   end.
 Record nd := { nd_chunk : Z; nd_shape : list Z; nd_dt : ndt; nd_rows : list row }.
 Record logd := { lg_width : Z; lg_lines : list row }.
@@ -652,8 +666,8 @@ Fixpoint spec_table (name : Z) (acc : option table) (ops : list op) : option tab
   end.
 
 (* ---- guards: the inputs on which the code does not keep what it was given ------- *)
-(* (known findings C01-log-truncated and C01-dtype-frozen; mirrored by the
-   matchers in harness/c01.py) *)
+(* (known findings C01-log-truncated, C01-dtype-frozen, C01-nd-dtype-frozen;
+   mirrored by the matchers in harness/c01.py) *)
 Definition fits (dt : sdtype) (v : fval) : bool :=
   let c := cast dt v in (fst c =? fst v) && (snd c =? snd v).
 
@@ -690,18 +704,19 @@ Definition image_ok (s : state) (f : Z) (isbool : bool) (ddt : ndt) (data : list
   let ndl := if w_mode (st_w s) =? 1 then adel f (f_nd (st_f s)) else f_nd (st_f s) in
   rows_fit (image_dt (alookup f ndl) f ddt) (image_data f isbool data).
 
-Fixpoint trace_ok (csb : Z) (shape : list Z) (ddt : ndt) (data : list (Z * list row))
-         (grp : option (list (Z * nd))) : bool :=
+(* the guard for one trace name: only the arrays stored under [tr] matter *)
+Fixpoint trace_ok (tr : Z) (csb : Z) (shape : list Z) (ddt : ndt)
+         (data : list (Z * list row)) (grp : option (list (Z * nd))) : bool :=
   match data with
   | [] => true
-  | (tr, rows) :: r =>
+  | (t, rows) :: r =>
       let g := match grp with Some g => g | None => [] end in
       if nonempty rows then
-        let dt := trace_dt (alookup tr g) ddt in
-        rows_fit dt rows
-        && trace_ok csb shape ddt r
-                    (Some (aset tr (write_nd csb (alookup tr g) shape (ndt_size ddt) dt
-                                             (map (map (cast_nd dt)) rows)) g))
+        let dt := trace_dt (alookup t g) ddt in
+        (if t =? tr then rows_fit dt rows else true)
+        && trace_ok tr csb shape ddt r
+                    (Some (aset t (write_nd csb (alookup t g) shape (ndt_size ddt) dt
+                                            (map (map (cast_nd dt)) rows)) g))
       else true
   end.
 
@@ -713,21 +728,40 @@ Definition trace_grp0 (s : state) (data : list (Z * list row)) : option (list (Z
   | None => None
   end.
 
-Fixpoint hist_ok (s : state) (ops : list op) : bool :=
+(* guards per object: only the writes to the dataset in question count *)
+Fixpoint hist_ok_by (okf : state -> op -> bool) (s : state) (ops : list op) : bool :=
   match ops with
   | [] => true
-  | o :: r =>
-      (match o with
-       | OScalar f isint data => scalar_ok s f isint data
-       | OLog name lines => log_ok s name lines
-       | OImage f isbool _ ddt data => image_ok s f isbool ddt data
-       | OArr f isbool shape dshape ddt flat =>
-           image_ok s f isbool ddt (arr_events f shape dshape flat)
-       | OTrace shape ddt data =>
-           trace_ok (w_csb (st_w s)) shape ddt data (trace_grp0 s data)
-       | _ => true
-       end) && hist_ok (fst (step s o)) r
+  | o :: r => okf s o && hist_ok_by okf (fst (step s o)) r
   end.
+
+Definition op_ok_scalar (f : Z) (s : state) (o : op) : bool :=
+  match o with
+  | OScalar g isint data => if g =? f then scalar_ok s g isint data else true
+  | _ => true
+  end.
+Definition op_ok_log (name : Z) (s : state) (o : op) : bool :=
+  match o with
+  | OLog g lines => if g =? name then log_ok s g lines else true
+  | _ => true
+  end.
+Definition op_ok_nd (f : Z) (s : state) (o : op) : bool :=
+  match o with
+  | OImage g isbool _ ddt data => if g =? f then image_ok s g isbool ddt data else true
+  | OArr g isbool shape dshape ddt flat =>
+      if g =? f then image_ok s g isbool ddt (arr_events g shape dshape flat) else true
+  | _ => true
+  end.
+Definition op_ok_trace (tr : Z) (s : state) (o : op) : bool :=
+  match o with
+  | OTrace shape ddt data => trace_ok tr (w_csb (st_w s)) shape ddt data (trace_grp0 s data)
+  | _ => true
+  end.
+
+Definition hist_ok_scalar (f : Z) := hist_ok_by (op_ok_scalar f).
+Definition hist_ok_log (name : Z) := hist_ok_by (op_ok_log name).
+Definition hist_ok_nd (f : Z) := hist_ok_by (op_ok_nd f).
+Definition hist_ok_trace (tr : Z) := hist_ok_by (op_ok_trace tr).
 
 (* ---- interface used by the correspondence check (harness/c01.py) ---------------- *)
 (* dtype codes of arrays and n-d datasets *)
@@ -798,6 +832,7 @@ Definition gen_px (kind seed i j : Z) : Z :=
   else if kind =? 3 then base mod 81 - 16
   else if kind =? 5 then (base * 131) mod 200001 - 100000
   else if kind =? 6 then 8 * (base mod 50)
+  else if kind =? 7 then (2 ^ 24 + base mod 97) * (1 + base mod 5) - (base mod 3) * 2 ^ 26
   else (if base mod 3 =? 0 then 1 + seed mod 255 else 0).
 Definition gen_rows (kind seed a b len : Z) : list row :=
   map (fun i => map (fun j => gen_px kind seed (a + Z.of_nat i) (Z.of_nat j))
